@@ -110,6 +110,29 @@ def quantity_task(acc: work.Acc, uc: str, vc: str, kinds: Dict[str, str]) -> Non
         if not rs:
             raise symnum.HarnessError(f"oracle cannot relate {uc} and {vc}")
         rho = rs[0][0]
+        # redundant shipped chains (psi = 6894.757 Pa vs lbf/in**2) agree only to the C04
+        # tolerance; order coherence is judged against the factor the library itself applies,
+        # after checking that factor against the oracle at the C04 tolerance
+        if U is not V:
+            from engine import convterm
+
+            cv = convterm.convert(U, V, "float")
+            acc.out["paths"] += cv.paths
+            tol4 = Fraction(1, 10 ** 5) * orc.degree(U, V)
+            ok4 = cv.outcome == "ok" and cv.d == 0 and abs(cv.c - rho) <= tol4 * abs(rho)
+            acc.ob("unsat" if ok4 else "sat", f"quantity/{uc}/{vc}:library factor agrees with the oracle (C04 tolerance)",
+                   (uc, vc, "factor"))
+            if not ok4:
+                # the order the library computes then disagrees with physical values
+                from props import c04
+
+                acc.out["viol"].append((f"C12:quantity:{uc}|{vc}:conversion-factor",
+                                        f"{uc}->{vc}: the library converts with {cv.outcome} "
+                                        f"{float(cv.c) if cv.c is not None else None}, declarations give "
+                                        f"{float(rho)}: comparisons cannot agree with physical values",
+                                        c04.replay(uc, vc, "float", rho, float(tol4))))
+                return
+            rho = cv.c
     exact_same = U is V
 
     def build(v: Dict[str, Any]) -> Dict[str, Any]:
@@ -385,6 +408,77 @@ sys.exit(0)
     acc.sample({"config": cfg, "paths": len(ex.paths)})
 
 
+TRIPLES = [
+    ("measured.si.Meter", "measured.us.Foot", "(measured.si.Kilo * measured.si.Meter)"),
+    ("measured.si.Hour", "measured.si.Second", "measured.si.Minute"),
+    ("measured.us.Mile", "measured.us.Inch", "(measured.si.Centi * measured.si.Meter)"),
+    ("(measured.iec.Kibi * measured.iec.Byte)", "(measured.si.Kilo * measured.iec.Bit)", "measured.iec.Byte"),
+    ("measured.si.Kilogram", "measured.avoirdupois.Pound", "(measured.si.Milli * measured.si.Gram)"),
+]
+
+
+def triple_task(acc: work.Acc, uc: str, vc: str, wc: str) -> None:
+    """sorted() on a mixed-unit list orders it physically; < is transitive (away from ties)."""
+    n = ns()
+    U, V, W = eval(uc, n), eval(vc, n), eval(wc, n)
+    orc = families.orc()
+    sV = orc.ratios(V, U)[0][0]
+    sW = orc.ratios(W, U)[0][0]
+    Z = z3.Real("z")
+
+    def build(v: Dict[str, Any]) -> Dict[str, Any]:
+        a, b, c = v["x"] * U, v["y"] * V, v["z"] * W
+        order = sorted([a, b, c])
+        idx = [0 if q is a else (1 if q is b else 2) for q in order]
+        return {"order": tuple(idx), "ab": a < b, "bc": b < c, "ac": a < c}
+
+    case = Case(build, {"x": "float", "y": "float", "z": "float"}, max_paths=400)
+    ex = case.explore()
+    acc.explored(ex)
+    x, y, z = (real(case.vars[k]) for k in ("x", "y", "z"))
+    SI = [x, y * symnum.q(sV), z * symnum.q(sW)]
+    absz = lambda e: z3.If(e >= 0, e, -e)
+    scale = absz(SI[0]) + absz(SI[1]) + absz(SI[2])
+    eps = symnum.q(TOL) * scale
+    cfg = f"triple/{uc}/{vc}/{wc}"
+
+    def replay(m: Dict[str, Fraction]) -> str:
+        return HEADER + f"""
+U, V, W = {uc}, {vc}, {wc}
+sizes = [1.0, {float(sV)!r}, {float(sW)!r}]      # relative unit sizes from the declarations
+mags = [{float(m['x'])!r}, {float(m['y'])!r}, {float(m['z'])!r}]
+qs = [mags[0] * U, mags[1] * V, mags[2] * W]
+si = {{id(q): mg * s for q, mg, s in zip(qs, mags, sizes)}}
+order = sorted(qs)
+vals = [si[id(q)] for q in order]
+print([str(q) for q in order], vals)
+tol = 1e-7 * sum(abs(v) for v in vals)
+if any(vals[i] > vals[i + 1] + tol for i in range(2)):
+    print('REPRODUCED: sorted() does not order the quantities physically'); sys.exit(1)
+a, b, c = qs
+if (a < b) and (b < c) and not (a < c) and min(abs(vals[i] - vals[j]) for i in range(3) for j in range(i)) > tol:
+    print('REPRODUCED: < is not transitive'); sys.exit(1)
+sys.exit(0)
+"""
+    for i, p in enumerate(ex.paths):
+        key = (cfg, i)
+        if p.exc is not None:
+            acc.ob("sat", f"{cfg}#p{i}:raised-{p.outcome}", key)
+            continue
+        o = p.result["order"]
+        s0, s1, s2 = SI[o[0]], SI[o[1]], SI[o[2]]
+        goal = z3.And(s0 <= s1 + eps, s1 <= s2 + eps)
+        acc.prove(case, p, goal, f"{cfg}#p{i}:sorted-orders-physically", key,
+                  f"C12:sorted:{uc}|{vc}|{wc}", f"sorted() misorders {cfg}", replay,
+                  shape_extra=[])
+        t_ab, t_bc, t_ac = norm(p.result["ab"]), norm(p.result["bc"]), norm(p.result["ac"])
+        apart = z3.And(absz(SI[0] - SI[1]) > eps, absz(SI[1] - SI[2]) > eps, absz(SI[0] - SI[2]) > eps)
+        acc.prove(case, p, z3.Implies(z3.And(apart, t_ab, t_bc), t_ac), f"{cfg}#p{i}:transitive", key,
+                  f"C12:transitive:{uc}|{vc}|{wc}", f"< not transitive for {cfg}", replay)
+    acc.sample({"config": cfg, "paths": len(ex.paths)})
+    acc.out["selfchecked"] += case.selfchecked
+
+
 def worker(task: Tuple) -> Dict[str, Any]:
     families.boot()
     acc = work.Acc()
@@ -396,6 +490,8 @@ def worker(task: Tuple) -> Dict[str, Any]:
             measurement_task(acc, *task[1:])
         elif kind == "level":
             level_task(acc, *task[1:])
+        elif kind == "triple":
+            triple_task(acc, *task[1:])
         else:
             raise symnum.HarnessError(kind)
     return acc.finish()
@@ -411,6 +507,8 @@ def tasks_for(tier: str) -> List[Tuple]:
         for kx, ky in kq:
             if (u, v) in TEMPERATURE_PAIRS and kx == "int":
                 continue
+            if "int" in (kx, ky) and any(t in u + v for t in ("us.", "avoirdupois", "calorie", "Gallon")):
+                continue   # mixed integer/real queries over 52-bit constants take minutes
             tasks.append(("quantity", u, v, {"x": kx, "y": ky}))
     mpairs = pairs[:4] if tier == "quick" else pairs[:10]
     for u, v in mpairs:
@@ -425,6 +523,8 @@ def tasks_for(tier: str) -> List[Tuple]:
                     continue
                 tasks.append(("measurement", u, v, shape,
                               {"x": km, "s": ku, "y": km, "t": ku}))
+    for tr in (TRIPLES if tier == "thorough" else TRIPLES[:3]):
+        tasks.append(("triple",) + tr)
     for lu, qu in LEVEL_UNITS if tier == "thorough" else LEVEL_UNITS[:3]:
         for shape in ("LQ", "LM", "LL"):
             kinds = {"l": "float", "x": "float"}
